@@ -6,10 +6,13 @@
   `PrimitiveStyle::with_stroke`): that segment is a skeleton segment and its scanline is the
   Bresenham intersection of the plain edge `Line(v[i+1], v[i+2])` - for every join kind, without
   rounding (the edge lines of a width-1 stroke are the lines themselves and meet exactly in the
-  shared vertex). Lemmas: EG.Lemmas.JoinsWidth1.
+  shared vertex). Lemmas: EG.Lemmas.JoinsWidth1. `skeleton_seg_is_join_code` identifies that scanline
+  with the parameter `skeletonSeg` of the triangle outline model, over which the merge of the three
+  edge scanlines per row is proved (`outline_is_edge_lines`, Props/C19/Triangle.lean).
 -/
 import EG.Lemmas.JoinsWidth1
 import EG.Model.ThickPolyline
+import EG.Model.Triangle
 namespace EG.C19.Joins
 open EG EG.Joins
 
@@ -51,7 +54,40 @@ theorem one_pixel_polyline_is_points (pl : Polyline) :
     (match drawStyled pl 1 with | some (.drawIter pts) => pts = Polyline.points pl | _ => False) :=
   ⟨rfl, rfl⟩
 
+/-- The two transcriptions of `Scanline::bresenham_intersection(&line)` (thick-segment model and
+triangle model) are the same function: they differ only in where the y-range test sits. -/
+theorem joins_bint_eq_scanline_bint (s : Scanline) (l : Line) : Joins.bint s l = s.bint l := by
+  unfold Joins.bint Scanline.bint Scanline.bresenhamIntersection
+  dsimp only
+  cases (if l.start.y ≤ l.stop.y then decide (l.start.y ≤ s.y ∧ s.y ≤ l.stop.y)
+    else decide (l.stop.y ≤ s.y ∧ s.y ≤ l.start.y)) <;> rfl
+
+/-- **The model parameter `skeletonSeg` of the triangle outline model IS the join code at width 1**:
+for edge `idx` of a triangle, `edge_intersections` builds
+`ThickSegment::new(LineJoin::from_points(v[idx], v[idx+1], v[idx+2], 1, None),
+                   LineJoin::from_points(v[idx+1], v[idx+2], v[idx+3], 1, None))`;
+that segment is a skeleton segment and its `intersection(y)` is `Triangle.skeletonSeg t idx y`, the
+function over which `outline_is_edge_lines` (Props/C19/Triangle.lean) is proved. Guard: the vertices
+are `i32` points (the cast of the exact join intersection does not saturate). -/
+theorem skeleton_seg_is_join_code (t : Triangle) (idx : Nat)
+    (h : ∀ i, inI32 (t.vertex i).x ∧ inI32 (t.vertex i).y) :
+    ∃ j1 j2,
+      LineJoin.fromPoints (t.vertex idx) (t.vertex (idx + 1)) (t.vertex (idx + 2)) 1 .none = some j1 ∧
+      LineJoin.fromPoints (t.vertex (idx + 1)) (t.vertex (idx + 2)) (t.vertex (idx + 3)) 1 .none = some j2 ∧
+      (ThickSegment.mk j1 j2).isSkeleton = true ∧
+      ∀ y, (ThickSegment.mk j1 j2).intersection y = t.skeletonSeg idx y := by
+  obtain ⟨j1, j2, e1, e2, hs, hi⟩ := segment_width1 (t.vertex idx) (t.vertex (idx + 1))
+    (t.vertex (idx + 2)) (t.vertex (idx + 3)) (h _).1 (h _).2 (h _).1 (h _).2
+  refine ⟨j1, j2, e1, e2, hs, fun y => ?_⟩
+  rw [hi y, joins_bint_eq_scanline_bint]
+  rfl
+
+example : ∀ i, inI32 ((⟨⟨-5, -4⟩, ⟨-5, -1⟩, ⟨-1, -4⟩⟩ : Triangle).vertex i).x ∧
+    inI32 ((⟨⟨-5, -4⟩, ⟨-5, -1⟩, ⟨-1, -4⟩⟩ : Triangle).vertex i).y := by
+  intro i
+  unfold Triangle.vertex
+  split <;> decide
+
 -- [V] the one-pixel outline with Inside / Outside alignment (StrokeOffset::Right / Left: `extents` takes the last parallel of one side) is the same three edge lines: carried by correspondence + oracle only
--- [V] the merge of the three edge scanlines per row (`edge_intersections`: left / right accumulators, `try_extend`) yields exactly the union of the three edge lines' points, in one of the two orientations of each edge: carried by correspondence + oracle only
 
 end EG.C19.Joins
